@@ -188,10 +188,10 @@ def repr_checks(q, par, ch):
     return n, bad
 
 
-def worker_init(repo):
+def worker_init(repo, assertions=False):
     import os
 
-    os.environ["ANYTREE_ASSERTIONS"] = "0"
+    os.environ["ANYTREE_ASSERTIONS"] = "1" if assertions else "0"
     sys.path.insert(0, repo)
     import anytree  # noqa
 
